@@ -247,7 +247,13 @@ Section Dec.
               let pi := if o && negb (N.testbit (prev_present prev) oi) then RNil else pi in
               match dec f env' (resolve env' ft) pi st with
               | Err e => Err e
-              | Ok (st', w) => go (i + 1) oi' fts' opts' (tl pf) st' (acc ++ [Some w])
+              | Ok (st', w) =>
+                (* a non-optional dictionary struct field must not be the nil entry (RefNum 0):
+                   struct.go.tmpl Decode returns ErrDecodeError *)
+                match w with
+                | WDictRef 0 => if o then go (i + 1) oi' fts' opts' (tl pf) st' (acc ++ [Some w]) else Err EInvalid
+                | _ => go (i + 1) oi' fts' opts' (tl pf) st' (acc ++ [Some w])
+                end
               end
             else go (i + 1) oi' fts' opts' (tl pf) st (acc ++ [None])
           | _, _ => Ok (st, acc)
